@@ -208,7 +208,7 @@ pub fn run(ctx: &mut Ctx) {
     ctx.rule = "connectivity_model: 1..4 exchanges (each with >= 1 instrument), vec(event,0..40|80) over {market item (trade / L1), account item (balance / order report / fill), market reconnecting, account reconnecting} x exchange, processed by Engine::process from the initial all-reconnecting state. non-trivial = >= 2 exchanges and the global health flag changed at least twice; distinct by hash of the case. Exhaustive: every sequence over {4 kinds} x {2 exchanges} up to length 4 (quick) / {3 exchanges} up to length 4 and {2 exchanges} up to length 5 (thorough).".into();
     ctx.assumptions = vec!["every exchange of the collection has at least one instrument (it is how an exchange enters the index)".into()];
     ctx.run_regressions::<ConnectivityModel>();
-    ctx.run::<ConnectivityModel>(ctx.tier.pick(6_000, 200_000));
+    ctx.run::<ConnectivityModel>(ctx.tier.pick(120_000, 2_000_000));
     match ctx.tier {
         Tier::Quick => ctx.run_enumerated::<ConnectivityModel>("exhaustive_2ex_len4", enumerate(2, 4)),
         Tier::Thorough => {
